@@ -858,6 +858,11 @@ def gen_c20(r, knobs=None):
         rd['tasks_form'] = 'wildcard'
     if r.random() < 0.3:
         rd['global_vars'] = {'VA': 'alpha', 'VB': 'beta'}
+    if b.rr.random() < 0.3:
+        # the pipeline lives in one multi-config file; the migrated config is its main part or a part named explicitly (`file#part`)
+        rd['form'] = 'multi_' + rd['form']
+        if b.rr.random() < 0.5:
+            rd['main_part'] = False
     b.proc(hs=r.choice([0, 1]))
     c0 = b.build(root, rd, pmode=False, store='src')
     names = b.names(c0)
